@@ -12,11 +12,13 @@
  *
  * A sample (s, y) is inside a trapezoid iff  top <= y < bottom  and  L(y) <= s < R(y), L and R
  * being the exact rational x of the left/right edge lines at y.  With integer s this reads
- * ceil(L) <= s < ceil(R); ceil(L) is computed exactly in __int128.
+ * ceil(L) <= s < ceil(R); ceil(L) is computed exactly in integers (int64 where the product fits, else __int128).
  *
  * Besides the ideal count the model returns, per pixel, the interval [lo, hi] of counts that can be
  * obtained when each edge position is moved by at most one ulp (1/65536) at each sample row:
- *   lo counts samples with L+1 <= s < R-1,  hi counts samples with L-1 <= s < R+1.
+ *   lo counts samples with L+1 <= s < R-1,  hi counts samples with L-1 <= s < R+1
+ * (and for depth 1 the same with two ulps, lo2/hi2).  These intervals are not part of the oracle: they only
+ * classify a difference from the ideal count as the recorded edge-position finding or as a plain miscount.
  * Counts are accumulated unsaturated into int arrays; the caller saturates.
  */
 #ifndef C12_REF_H
